@@ -36,8 +36,14 @@ Proof. exact fp_sound_modulo_unhashed. Qed.
 
 (* the remaining class is a genuine failure of the faithful model: a computed history ends in a cache hit
    (result UpToDate) over files that are not those of a forced generation *)
-Theorem C08_refuted : exists ops, refutes [8] p0 (ex_cfg "none" true) ops.
-Proof. eexists. exact refuted_8. Qed.
+Theorem C08_refuted : (exists ops, refutes [8] p0 (ex_cfg "none" true) ops) /\ (exists ops, refutes [8] p0 (ex_cfg "none" true) ops).
+Proof. split; eexists; [exact refuted_8|exact refuted_8b]. Qed.
+
+(* former witness of C08-10 (two commands of one file swapped; undetected while the hash sorted the commands by
+   name): the hash keeps the source order inside a file, the edit is detected *)
+Theorem C08_repaired_command_order :
+  detects (p_two [ex_cmd None None; ex_cmd2]) c0 [Run _ _ _ _ w1 false; SetSrc _ _ _ _ (p_two [ex_cmd2; ex_cmd None None])].
+Proof. exact fixed_10. Qed.
 
 (* former witnesses of C08-6 (event renamed) and C08-9 (types.ts deleted): detected now *)
 Theorem C08_repaired_events_and_lost_file :
@@ -96,6 +102,7 @@ Print Assumptions C08_cache_sound.
 Print Assumptions C08_inv_initial.
 Print Assumptions C08_classes_complete.
 Print Assumptions C08_refuted.
+Print Assumptions C08_repaired_command_order.
 Print Assumptions C08_repaired_events_and_lost_file.
 Print Assumptions C08_repaired_witnesses_detected.
 Print Assumptions C08_refuted_means_unsound.
